@@ -404,7 +404,23 @@ class Summariser:
         for m in self.markers:
             zero = z3.RealVal(0)
             pairs.append((m, zero))
-        return z3.simplify(z3.substitute_funs(t, *pairs))
+        t = z3.simplify(z3.substitute_funs(t, *pairs))
+        # sums created during the discovery run may have markers inside their summands: rebuild them from the unmarked summand
+        names = {m.name() for m in self.markers}
+        for _ in range(8):
+            dirty = []
+            for atom, j, args, app in sums.atom_apps([t]):
+                probe = [atom.term] + ([atom.guard] if atom.guard is not True else [])
+                if any(x.decl().name() in names for p in probe for x in core.uninterp_apps(p)):
+                    dirty.append((atom, j, list(args), app))
+            if not dirty:
+                break
+            reps = []
+            for atom, j, args, app in dirty:
+                new = sums.make_sum(lambda k, atom=atom, args=args: self.unmark(atom.summand(k, args)), 0, j)
+                reps.append((app, new))
+            t = z3.simplify(z3.substitute(t, *reps))
+        return t
 
     def _merge(self, pairs):
         res = None
